@@ -31,7 +31,8 @@ import (
 
 // Read http api by HTTP GET and parse the code/data.
 func ApiRequest(url string) (code int, body []byte, err error) {
-	if body, err = apiGet(url); err != nil {
+	var status int
+	if status, body, err = apiGet(url); err != nil {
 		return
 	}
 
@@ -39,17 +40,26 @@ func ApiRequest(url string) (code int, body []byte, err error) {
 		return
 	}
 
+	// the HTTP error, for example, the response of Error(ctx, fmt.Errorf("xxx")),
+	// is never success, whatever the body is.
+	if status >= http.StatusBadRequest {
+		err = fmt.Errorf("api status error, status=%v, url=%v, body=%v", status, url, string(body))
+		return
+	}
+
 	return
 }
 
 // Read http api by HTTP GET.
-func apiGet(url string) (body []byte, err error) {
+func apiGet(url string) (status int, body []byte, err error) {
 	var resp *http.Response
 	if resp, err = http.Get(url); err != nil {
 		err = fmt.Errorf("api get failed, url=%v, err is %v", url, err)
 		return
 	}
 	defer resp.Body.Close()
+
+	status = resp.StatusCode
 
 	if body, err = ioutil.ReadAll(resp.Body); err != nil {
 		err = fmt.Errorf("api read failed, url=%v, err is %v", url, err)
